@@ -112,6 +112,15 @@ def loopy_kernels() -> dict[str, Any]:
          lp.GlobalArg("out", np.float64, shape=("n", "m"), is_input=False),
          lp.GlobalArg("out2", np.float64, shape=("n",), is_input=False), ...],
         name="vf_outer", target=tgt, lang_version=(2018, 2))
+    # a DIFFERENT kernel with the SAME name as "outer" (only used by directed programs: what a
+    # program's callee is called must not depend on what was generated earlier in the process)
+    k["outer_twin"] = lp.make_kernel(
+        "{[i,j]: 0<=i<n and 0<=j<m}", "out[i,j] = x[i]+y[j]\n out2[i] = 3*x[i]",
+        [lp.GlobalArg("x", np.float64, shape=("n",)),
+         lp.GlobalArg("y", np.float64, shape=("m",)),
+         lp.GlobalArg("out", np.float64, shape=("n", "m"), is_input=False),
+         lp.GlobalArg("out2", np.float64, shape=("n",), is_input=False), ...],
+        name="vf_outer", target=tgt, lang_version=(2018, 2))
     return k
 
 
@@ -319,6 +328,8 @@ def np_apply(op: str, a: list[Any], p: dict[str, Any], mca: MCA) -> Any:
                 return {"out": r}
             if k == "outer":
                 return {"out": mca.p(np.multiply.outer(a[0], a[1])), "out2": 2 * a[0]}
+            if k == "outer_twin":
+                return {"out": mca.p(np.add.outer(a[0], a[1])), "out2": 3 * a[0]}
         if op == "getitem_named":
             return a[0][p["name"]]
     raise ValueError(f"unknown op {op}")
@@ -451,7 +462,7 @@ def pt_apply(op: str, a: list[Any], p: dict[str, Any]) -> Any:
             return call_loopy(knl, {"a": dec_scalar(p["a"]), "x": a[0], "y": a[1]})
         if k == "rowsum":
             return call_loopy(knl, {"x": a[0]})
-        if k == "outer":
+        if k in ("outer", "outer_twin"):
             return call_loopy(knl, {"x": a[0], "y": a[1]})
     if op == "getitem_named":
         return a[0][p["name"]]
